@@ -77,14 +77,33 @@ def model_verdicts(progs):
 
 
 def find_rlib(target_dir):
+    """the unimock rlib cargo built from the repository under test (the target directory may also hold builds of other
+    checkouts, e.g. a scratch clone used to evaluate a seeded change: the dep-info file names the sources)"""
     deps = os.path.join(target_dir, "debug", "deps")
     libs = sorted(glob.glob(os.path.join(deps, "libunimock-*.rlib")), key=os.path.getmtime)
-    return deps, (libs[-1] if libs else None)
+    mine = []
+    for lib in libs:
+        dinfo = os.path.join(deps, os.path.basename(lib)[3:-5] + ".d")
+        try:
+            if (os.path.join(C.REPO, "src", "lib.rs") + ":") in open(dinfo).read():
+                mine.append(lib)
+        except OSError:
+            pass
+    return deps, (mine[-1] if mine else None)
 
 
 def rustc_verdicts(progs):
     """True = compiles"""
-    C.build_harness("core")
+    try:
+        C.build_harness("core")
+    except C.CheckFailure:
+        # the interpreter crate itself no longer type-checks against the current tree (its typed walkers follow the builder's
+        # type states); cargo has still compiled the library before failing on the binary: use that rlib if it is not older
+        # than the sources, so that the sweep can look for a concrete offending program
+        deps, rlib = find_rlib(os.path.join(C.CACHE, "target", "core"))
+        newest = max(os.path.getmtime(os.path.join(dp, f)) for dp, _, fs in os.walk(os.path.join(C.REPO, "src")) for f in fs)
+        if rlib is None or os.path.getmtime(rlib) < newest:
+            raise
     deps, rlib = find_rlib(os.path.join(C.CACHE, "target", "core"))
     if rlib is None:
         raise C.CheckFailure("rustc sweep: no prebuilt unimock rlib found", deps)
